@@ -22,7 +22,7 @@ def param_types(ctx):
     return base, [c for c in repo.subclasses_of(base)]
 
 
-def _footprint(m, in_default_bound=False):
+def _footprint(m, in_default_bound=False, ctx=None):
     """('all'|'first'|None, guarded) over the value parameters used by method m."""
     rv = recv_name(m)
     uses_all = uses_first = False
@@ -51,16 +51,24 @@ def _footprint(m, in_default_bound=False):
         if isinstance(n, ast.Call) and call_name(n) == "len" and n.args and (is_self_attr(n.args[0], "parameters", selfname=rv) or (star and dotted(n.args[0]) == star)):
             discounted += 1
     uses_all = alls - discounted > 0
-    # guarded: every first-only access sits under `len(parameters) == 1`
+    # guarded: every first-only access happens only where `len(parameters) == 1` holds
     guarded = True
     if first_nodes:
+        from ..norm import atoms as _atoms
+
+        def len1(a):
+            return a[0] == "cmp" and a[1] == "Eq" and "len(" in src(a[2]) + src(a[3]) and "1" in (src(a[2]), src(a[3]))
+
         for fnode in first_nodes:
             g = False
-            for st in ast.walk(m.node):
-                if isinstance(st, ast.If) and any(x is fnode for b in st.body for x in ast.walk(b)):
-                    for a in atoms(st.test):
-                        if a[0] == "cmp" and a[1] == "Eq" and "len(" in src(a[2]) + src(a[3]) and "1" in (src(a[2]), src(a[3])):
-                            g = True
+            if ctx is not None:
+                from .common import holds_at
+
+                g = holds_at(ctx, m, fnode, len1)
+            else:
+                for st in ast.walk(m.node):
+                    if isinstance(st, ast.If) and any(x is fnode for b in st.body for x in ast.walk(b)):
+                        g = g or any(len1(a) for a in _atoms(st.test))
             guarded = guarded and g
     return uses_all, uses_first, guarded
 
@@ -72,7 +80,7 @@ def r1_sibling_footprints(ctx):
         ms = {name: c.methods[name] for name in VALUE_METHODS if name in c.methods}
         if len(ms) < 2:
             continue
-        fps = {name: _footprint(m) for name, m in ms.items()}
+        fps = {name: _footprint(m, ctx=ctx) for name, m in ms.items()}
         any_all = any(a for a, f, g in fps.values())
         for name, (a, f, g) in fps.items():
             m = ms[name]
@@ -174,8 +182,19 @@ def r3_product_types(ctx):
         ctx.touch(cg, ck)
         rv = recv_name(cg)
         # codegen: length test
-        consts = [str_value(x) for x in ast.walk(cg.node) if isinstance(x, (ast.Constant, ast.JoinedStr))]
-        len_tpl = [t for t in consts if t and re.search(r"len\(\{arg\}\)\s*==\s*\{(\w+)\}", t)]
+        # every fragment that goes into the list of checks, as a template
+        frags = []
+        for x in ast.walk(cg.node):
+            if isinstance(x, ast.Call) and isinstance(x.func, ast.Attribute) and x.func.attr in ("append", "extend") and x.args:
+                t = str_value(x.args[0], cg.node)
+                if t is not None:
+                    frags.append((t, x))
+            elif isinstance(x, ast.List):
+                for e in x.elts:
+                    t = str_value(e, cg.node)
+                    if t is not None:
+                        frags.append((t, e))
+        len_tpl = [t for t, _ in frags if re.search(r"len\(\{arg\}\)\s*==\s*\{(\w+)\}", t)]
         ok_len = False
         if len_tpl:
             hole = re.search(r"len\(\{arg\}\)\s*==\s*\{(\w+)\}", len_tpl[0]).group(1)
@@ -184,15 +203,21 @@ def r3_product_types(ctx):
                     for k, v in zip(d.keys, d.values):
                         if isinstance(k, ast.Constant) and k.value == hole and isinstance(v, ast.Call) and call_name(v) == "len" and is_self_attr(v.args[0], "parameters", selfname=rv):
                             ok_len = True
+                if isinstance(d, ast.Assign) and isinstance(d.targets[0], ast.Subscript) and isinstance(d.targets[0].slice, ast.Constant) and d.targets[0].slice.value == hole and isinstance(d.value, ast.Call) and call_name(d.value) == "len" and is_self_attr(d.value.args[0], "parameters", selfname=rv):
+                    ok_len = True
+                if isinstance(d, ast.Call) and call_name(d) == "CodeGen":
+                    for k in d.keywords:
+                        if k.arg == hole and isinstance(k.value, ast.Call) and call_name(k.value) == "len" and is_self_attr(k.value.args[0], "parameters", selfname=rv):
+                            ok_len = True
         ctx.ob(f"{cg.key}:length-test", cg.loc(), "the emitted check tests the tuple's length against the number of element types", ok_len, "the generated tuple check has no length test: a longer or shorter tuple matches (or indexing fails)")
-        # codegen: one isinstance per index over the whole parameter list, joined with and
+        # codegen: one isinstance per index over the whole parameter list, joined by and
         loops = [x for x in ast.walk(cg.node) if isinstance(x, ast.For)]
         ok_loop = False
         for lp in loops:
             if isinstance(lp.iter, ast.Call) and call_name(lp.iter) == "enumerate" and is_self_attr(lp.iter.args[0], "parameters", selfname=rv):
                 i = dotted(lp.target.elts[0])
-                tpls = [str_value(x) for x in ast.walk(lp) if isinstance(x, ast.JoinedStr)]
-                if any(t and re.fullmatch(r"isinstance\(\{arg\}\[§%s§\], \{p§%s§\}\)" % (i, i), t) for t in tpls):
+                inloop = [t for t, node in frags if any(node is y for y in ast.walk(lp))]
+                if any(re.fullmatch(r"isinstance\(\{arg\}\[§%s§\], \{p§%s§\}\)" % (i, i), t) for t in inloop):
                     ok_loop = True
         joins = [x for x in ast.walk(cg.node) if isinstance(x, ast.Call) and isinstance(x.func, ast.Attribute) and x.func.attr == "join" and str_value(x.func.value) == " and "]
         ctx.ob(f"{cg.key}:per-index-tests", cg.loc(), "the emitted check has one isinstance test per element index over the whole parameter list, joined by `and`", ok_loop and bool(joins), "the generated tuple check skips an element position or does not conjoin the element tests")
@@ -218,55 +243,85 @@ def r3_product_types(ctx):
 
 
 def r4_connective_is_quantifier(ctx):
+    """Union = or / any / any, Intersection = and / all / all - decided by interpreting the three methods on
+    symbolic member lists of length 1..3 with every truth assignment of the member tests."""
+    import itertools
+
+    from ..orderdom import Interp
+
     repo = ctx.repo
-    want = {"Union": ("or", "any"), "Intersection": ("and", "all")}
+    want = {"Union": ("or", any), "Intersection": ("and", all)}
     n = 0
     for c in repo.all_classes():
         if c.name not in want or "codegen" not in c.methods:
             continue
         conn, quant = want[c.name]
+        qname = quant.__name__
+        # ---- codegen: the template and the member checks it is combined with
         cg = c.methods["codegen"]
         ctx.touch(cg)
-        joins = [str_value(x.func.value) for x in ast.walk(cg.node) if isinstance(x, ast.Call) and isinstance(x.func, ast.Attribute) and x.func.attr == "join"]
-        ok = joins == [f" {conn} "]
-        whole = any(isinstance(g, ast.comprehension) and src(g.iter).endswith(".types") for g in ast.walk(cg.node))
+        rv = recv_name(cg)
+        bad = None
+        bracketed = True
+        for k in (1, 2, 3):
+            members = tuple(f"m{i}" for i in range(k))
+            stubs = {
+                "generate_checking_code": lambda t: "cg:" + t,
+                "combine": lambda tpl, lst: ("combine", tpl, tuple(lst)),
+                "isinstance": lambda x, cl: True,
+            }
+            got = Interp("Order", stubs=stubs).run(cg.node, {rv: "SELF", f"{rv}.types": members, f"{rv}.__args__": members, "types": members})
+            ok = isinstance(got, tuple) and got[:1] == ("combine",)
+            if ok:
+                tpl, lst = got[1], got[2]
+                core = tpl[1:-1] if tpl.startswith("(") and tpl.endswith(")") else tpl
+                if not (tpl.startswith("(") and tpl.endswith(")")) and k > 1:
+                    bracketed = False
+                ok = core == f" {conn} ".join(["{}"] * k) and lst == tuple("cg:" + m for m in members)
+            if not ok and bad is None:
+                bad = (k, got)
         n += 1
-        ctx.ob(f"{cg.key}:connective", cg.loc(), f"{c.name}'s emitted check joins all member checks with `{conn}`", ok and whole, f"{c.name}.codegen joins its members with {joins}: the generated check is a different connective from isinstance()")
+        ctx.ob(
+            f"{cg.key}:connective",
+            cg.loc(),
+            f"{c.name}'s emitted check joins the checks of all its members, in order, with `{conn}` (interpreted for 1, 2 and 3 members)",
+            bad is None,
+            f"{c.name}.codegen produces {bad[1] if bad else ''} for {bad[0] if bad else ''} member(s): the generated check is not the `{conn}` of all member checks, so it disagrees with isinstance()",
+        )
         if conn == "or":
-            # `or` binds looser than the `and` that callers join checks with: the disjunction must be bracketed
-            tdef = [s for s in ast.walk(cg.node) if isinstance(s, ast.Assign) and any(isinstance(x, ast.Call) and isinstance(x.func, ast.Attribute) and x.func.attr == "join" for x in ast.walk(s.value))]
-            brack = False
-            for s in tdef:
-                v = s.value
-                consts = [x.value for x in ast.walk(v) if isinstance(x, ast.Constant) and isinstance(x.value, str)]
-                lm = rm = v
-                while isinstance(lm, ast.BinOp):
-                    lm = lm.left
-                while isinstance(rm, ast.BinOp):
-                    rm = rm.right
-                opens = isinstance(v, ast.BinOp) and isinstance(lm, ast.Constant) and str(lm.value).strip().startswith("(") and isinstance(rm, ast.Constant) and str(rm.value).strip().endswith(")")
-                each = any(k.strip() in ("({})",) for k in consts)
-                brack = brack or opens or each
             n += 1
-            ctx.ob(f"{cg.key}:bracketed", cg.loc(), f"{c.name}'s emitted disjunction is bracketed (it is embedded in `and`-conjunctions by the intersection and by the per-argument guard)", brack, f"{c.name}.codegen emits `A or B` without brackets: joined with ` and ` by the caller it reads `A or (B and C)`, so a method runs although one of its other value conditions is false")
+            ctx.ob(f"{cg.key}:bracketed", cg.loc(), f"{c.name}'s emitted disjunction is bracketed (it is embedded in `and`-conjunctions by the intersection and by the per-argument guard)", bracketed and bad is None, f"{c.name}.codegen emits `A or B` without brackets: joined with ` and ` by the caller it reads `A or (B and C)`, so a method runs although one of its other value conditions is false")
+        # ---- the two membership tests
         for mname, fn in (("__instancecheck__", "isinstance"), ("__is_supertype__", "subclasscheck")):
             m = c.methods.get(mname)
             ctx.require(m is not None, f"{c.key} lost {mname}")
             ctx.touch(m)
             rv = recv_name(m)
             arg = [p for p in m.params if p != rv][0]
-            rets = [r for r in ast.walk(m.node) if isinstance(r, ast.Return) and r.value is not None]
-            ok = len(rets) == 1
-            if ok:
-                v = rets[0].value
-                ok = isinstance(v, ast.Call) and call_name(v) == quant and isinstance(v.args[0], (ast.GeneratorExp, ast.ListComp))
-                if ok:
-                    ge = v.args[0]
-                    g = ge.generators[0]
-                    t = dotted(g.target)
-                    ok = src(g.iter) == f"{rv}.types" and not g.ifs and isinstance(ge.elt, ast.Call) and call_name(ge.elt) == fn and [dotted(a) for a in ge.elt.args] == [arg, t]
+            bad = None
+            cases = 0
+            for k in (1, 2, 3):
+                members = tuple(f"m{i}" for i in range(k))
+                for truth in itertools.product((True, False), repeat=k):
+                    table = dict(zip(members, truth))
+
+                    def test(x, t, table=table):
+                        if x != "X" or t not in table:
+                            raise AnalysisError(f"{m.key}: {fn} called as ({x}, {t}) - expected ({arg}, member)")
+                        return table[t]
+
+                    got = Interp("Order", stubs={fn: test}).run(m.node, {rv: "SELF", arg: "X", f"{rv}.types": members, f"{rv}.__args__": members})
+                    cases += 1
+                    if bool(got) != quant(truth) and bad is None:
+                        bad = (table, got)
             n += 1
-            ctx.ob(f"{m.key}:quantifier", m.loc(), f"{c.name}.{mname} is `{quant}` of {fn}({arg}, member) over all members", ok, f"{c.name}.{mname} is not `{quant}` over all members in that argument order: a value/class matches the {c.name.lower()} although it matches {'no arm' if quant == 'any' else 'only some arms'}")
+            ctx.ob(
+                f"{m.key}:quantifier",
+                m.loc(),
+                f"{c.name}.{mname} is `{qname}` of {fn}({arg}, member) over all members ({cases} cases interpreted)",
+                bad is None,
+                f"with member tests {bad[0] if bad else ''} {c.name}.{mname} answers {bad[1] if bad else ''}: a value/class matches the {c.name.lower()} although it matches {'no arm' if qname == 'any' else 'only some arms'} (or the reverse)",
+            )
     ctx.require(n >= 6, "expected union and intersection, each with codegen / __instancecheck__ / __is_supertype__")
 
 
